@@ -523,6 +523,14 @@ def gen_program(rng, n_ops=40, stress=None):
             if q < 0.3:
                 return [["adapt", iface, r_obj()]]
             return [["call", iface, r_obj(), rng.choice([False, True, True, "falsy"])]]
+        if r < 0.835:
+            if rng.random() < 0.3:
+                return [["metaeq", rng.choice(["byname", "always", "never"]), rng.choice(ifaces), rng.choice(ifaces),
+                         rng.randrange(n_regs), rng.random() < 0.5]]
+            return [["life", rng.choice(["queryAdapter", "adapter_hook", "queryMultiAdapter", "subscribers", "lookup",
+                                         "lookup1", "call"]), rng.randrange(n_regs), rng.choice(classes),
+                     rng.choice(["plain", "direct", "super"]), rng.choice(["adapter", "none", "raise", "miss"]),
+                     rng.random() < 0.5]]
         if r < 0.845:      # the whole lookup family on one key of one registry, shuffled, no mutation between
             reg = rng.randrange(n_regs)
             j = rng.randrange(n_plain)
@@ -659,6 +667,23 @@ def gen_matrix(rng):
                         cases.append({"world": world, "ops": ops, "matrix": True})
     cases.extend(gen_verifying_programs(world, ifaces, classes))
     cases.extend(gen_family_programs(world, ifaces, classes))
+    # class objects with a hostile metaclass (== / hash), queries about an equal-but-distinct subclass
+    for flavour in ("push", "verifying"):
+        for kind in ("byname", "always", "never"):
+            for warm in (False, True):
+                cases.append({"world": world, "matrix": True,
+                              "ops": [["newreg", flavour, []], ["metaeq", kind, ifaces[0], ifaces[1], 0, warm]]})
+    # lifetimes of objects / adapters / factories / registries after every kind of lookup
+    for flavour in ("push", "verifying"):
+        for entry in ("queryAdapter", "adapter_hook", "queryMultiAdapter", "subscribers", "lookup", "lookup1", "call"):
+            for objkind in ("plain", "direct", "super"):
+                for beh in ("adapter", "none", "raise", "miss"):
+                    for dflt in (False, True):
+                        if entry == "subscribers" and dflt:
+                            continue
+                        cases.append({"world": world, "matrix": True,
+                                      "ops": [["newreg", flavour, []],
+                                              ["life", entry, 0, c0, objkind, beh, dflt]]})
     # both arguments bad: a lazy required that raises and an unhashable provided (known finding G15)
     for meth in ("lookup", "lookupAll", "subscriptions", "names", "queryMultiAdapter", "subscribers"):
         cases.append({"world": world, "matrix": True,
